@@ -237,7 +237,11 @@ def model_assumptions(ctx):
     # the order analysis behind is_orderby: modelled as "these operators hand on their child's keys unchanged"
     ao = prog.body('planner::rules::order::analyze_order')
     if ctx.anchor(R3, 'planner::rules::order::analyze_order', ao is not None):
-        from rules.c12 import pass_through_arms
+        from rules.c12 import pass_through_arms, merge_join_types
+        mj = merge_join_types(ao)
+        ctx.ob(R3, 'analyze_order·MergeJoin·join-types', mj == {'Inner', 'RightOuter'},
+               f'analyze_order hands on the right order of a merge join for {sorted(mj) if mj is not None else "every join type"}; the model '
+               '(rulesem/alg.py orderby) does so for inner and right_outer', [ao.loc])
         for v, foreign in sorted(pass_through_arms(ao).items()):
             ctx.ob(R3, f'analyze_order·{v}·passes-keys-unchanged', not foreign,
                    f'analyze_order arm {v}: calls other than the accessor and clone: {foreign}', [ao.loc],
